@@ -813,8 +813,10 @@ func grpcErrorToTrailer(bufferPool *bufferPool, trailer http.Header, protobuf Co
 
 func grpcStatusFromError(err error) (*statusv1.Status, error) {
 	status := &statusv1.Status{
-		Code:    int32(CodeUnknown),
-		Message: err.Error(),
+		Code: int32(CodeUnknown),
+		// As below: Protobuf strings must be valid UTF-8, the text of an
+		// arbitrary error need not be.
+		Message: strings.ToValidUTF8(err.Error(), "\uFFFD"),
 	}
 	if connectErr, ok := asError(err); ok {
 		status.Code = int32(connectErr.Code())
